@@ -33,6 +33,10 @@ from mysql_mimic.utils import seq, aiterate, cooperative_iterate
 logger = logging.getLogger(__name__)
 
 
+class AuthenticationFailed(Exception):
+    """Authentication was refused. The ERR packet has already been sent; the connection must be closed."""
+
+
 class Connection:
     _MAX_PREPARED_STMT_ID = 2**32
 
@@ -96,6 +100,8 @@ class Connection:
         try:
             await self.connection_phase()
             await self.session.init(self)
+        except AuthenticationFailed:
+            return
         except Exception as e:
             await self.stream.write(self.error(msg=e, code=ErrorCode.HANDSHAKE_ERROR))
             raise
@@ -214,7 +220,7 @@ class Connection:
                     code=ErrorCode.USER_DOES_NOT_EXIST,
                 )
             )
-            return
+            raise AuthenticationFailed()
 
         user_plugin = (
             self.identity_provider.get_plugin(user.auth_plugin or "")
@@ -284,6 +290,7 @@ class Connection:
                     code=ErrorCode.ACCESS_DENIED_ERROR,
                 )
             )
+            raise AuthenticationFailed()
 
     async def command_phase(self) -> None:
         """https://dev.mysql.com/doc/internals/en/command-phase.html"""
@@ -334,6 +341,9 @@ class Connection:
             except MysqlError as e:
                 logger.error(e)
                 await self.stream.write(self.error(msg=e.msg, code=e.code))
+            except AuthenticationFailed:
+                # A failed COM_CHANGE_USER terminates the connection
+                return
             except asyncio.CancelledError:
                 if self._kill == KillKind.QUERY:
                     logger.info("Query killed on connection %s", self.connection_id)
